@@ -240,7 +240,8 @@ def load_known_fns():
     p = os.path.join(VERIF, "rules", "known_fns.json")
     if not os.path.exists(p):
         return None
-    return set(json.load(open(p)))
+    d = json.load(open(p))
+    return d if isinstance(d, dict) else set(d)
 
 
 def load_known():
